@@ -39,6 +39,7 @@ type Val struct {
 	Fn   *ssa.Function
 	Glob string // provenance: value loaded from this package-level variable
 	Sort string // KArr: full SMT sort
+	GT    *GT   // KArr: ghost array type
 	Inner *Val  // KIface: the concrete value wrapped by MakeInterface (if known)
 	Iter *iterInfo
 }
@@ -495,4 +496,22 @@ func elemTypeOf(t types.Type) types.Type {
 // elemAddr gives the address of element i of a slice value (SMT term).
 func sliceElemAddr(s, i string) string {
 	return sx("idx", s, i)
+}
+
+// GT describes the type of a ghost array: key type and element (either a Go
+// type or a nested ghost array).
+type GT struct {
+	Key   types.Type
+	ElemT types.Type
+	ElemG *GT
+}
+
+func (g *GT) sort() string {
+	es := ""
+	if g.ElemG != nil {
+		es = g.ElemG.sort()
+	} else {
+		es = sortOfType(g.ElemT)
+	}
+	return "(Array " + sortOfType(g.Key) + " " + es + ")"
 }
